@@ -25,6 +25,7 @@ func runC10(p *Prog, r *Report) {
 	c10R5(p, r)
 	c10R6(p, r)
 	c10R7(p, r)
+	c10R8(p, r)
 }
 
 func c10R1(p *Prog, r *Report) {
@@ -660,4 +661,111 @@ func c10R7(p *Prog, r *Report) {
 	})
 	r.Count("block_stores_in_adding_functions", n)
 	r.Floor(rule, 4)
+}
+
+// c10R8: the trie's enumerator is the inverse of Insert on labels. Insert walks the labels of a suffix
+// right to left, one trie level per label — an EMPTY label included ("example.com." has an empty
+// top-level label, "a..b" an empty inner one). The enumerator rebuilds the suffix by joining the
+// child's label, a dot and what was accumulated so far; the dot must be put in on every path, because
+// "nothing accumulated yet" and "an empty label accumulated" are different trie positions. A join that
+// is skipped when the accumulated suffix is empty rewrites "example.com." to "example.com" whenever the
+// set is written out (text, gob, conversion between matcher kinds), changing what matches.
+func c10R8(p *Prog, r *Report) {
+	const rule = "C10-R8"
+	r.Rule(rule, "enumeration joins labels unconditionally: in the recursive enumerator of DomainSuffixTrie (the method with a string accumulator that calls itself on a child), the accumulator passed down is, on every path, a concatenation of the child's label, the \".\" separator and the accumulator received (every reaching definition of the argument is such a concatenation); the top-level iterator passes the bare label")
+	pkg := p.Pkg("domainset")
+	n := 0
+	p.AllFuncs(pkg, func(top *FuncCtx) {
+		recv := top.RecvObj()
+		if recv == nil || namedTypeName(derefType(recv.Type())) != "DomainSuffixTrie" || top.Decl == nil {
+			return
+		}
+		info := top.Info()
+		var acc types.Object
+		for i := 0; top.ParamObj(i) != nil; i++ {
+			if b, ok := top.ParamObj(i).Type().Underlying().(*types.Basic); ok && b.Kind() == types.String {
+				acc = top.ParamObj(i)
+			}
+		}
+		if acc == nil {
+			return
+		}
+		isJoin := func(e ast.Expr) bool {
+			hasDot, hasAcc := false, false
+			var walk func(e ast.Expr)
+			walk = func(e ast.Expr) {
+				e = ast.Unparen(e)
+				if be, ok := e.(*ast.BinaryExpr); ok && be.Op == token.ADD {
+					walk(be.X)
+					walk(be.Y)
+					return
+				}
+				if tv, ok := info.Types[e]; ok && tv.Value != nil && tv.Value.String() == `"."` {
+					hasDot = true
+				}
+				if objOf(info, e) == acc {
+					hasAcc = true
+				}
+			}
+			walk(e)
+			return hasDot && hasAcc
+		}
+		for _, fc := range allCtxs(p, top) {
+			for _, cs := range fc.AllCalls() {
+				if cs.Fn == nil || cs.Fn != top.Obj || len(cs.Call.Args) == 0 {
+					continue
+				}
+				// the accumulator argument: the one in the accumulator's position
+				idx := -1
+				for i := 0; top.ParamObj(i) != nil; i++ {
+					if top.ParamObj(i) == acc {
+						idx = i
+					}
+				}
+				if idx < 0 || idx >= len(cs.Call.Args) {
+					continue
+				}
+				arg := cs.Call.Args[idx]
+				n++
+				ok := isJoin(arg)
+				why := exprStr(arg)
+				if !ok {
+					if o := objOf(info, arg); o != nil {
+						rd := fc.ReachingDefs(cs.V, o)
+						ok = len(rd) > 0
+						for _, d := range rd {
+							dv := fc.G.V[d]
+							good := false
+							if as, isAs := dv.Node.(*ast.AssignStmt); isAs && dv.Kind == VStmt {
+								for i, l := range as.Lhs {
+									if objOf(info, l) != o || i >= len(as.Rhs) {
+										continue
+									}
+									switch as.Tok {
+									case token.ASSIGN, token.DEFINE:
+										good = isJoin(as.Rhs[i])
+									case token.ADD_ASSIGN:
+										// s += "." + acc: still only a join if this definition is the only one reaching
+										good = isJoin(&ast.BinaryExpr{X: l, Op: token.ADD, Y: as.Rhs[i]}) && len(rd) == 1
+									}
+								}
+							}
+							if !good {
+								ok = false
+								if dv.Node != nil {
+									why = exprStr(arg) + " as defined at " + p.posStr(dv.Node.Pos())
+								} else if dv.Stmt != nil {
+									why = exprStr(arg) + " as defined by the loop head at " + p.posStr(dv.Stmt.Pos())
+								}
+							}
+						}
+					}
+				}
+				r.Check(ok, rule, fmt.Sprintf("%s:accumulator-is-label-dot-suffix", top.Name), cs.Pos(), "the accumulator handed to the child is label + \".\" + accumulator on every path",
+					"the enumerator hands "+why+" down to a child without joining it to the accumulated suffix through \".\" on every path: a rule with an empty label (a trailing or doubled dot) is written out as a different rule, so the set matches differently after any conversion or save")
+			}
+		}
+	})
+	r.Check(n >= 1, rule, "domainset.DomainSuffixTrie:recursive-enumerator-found", "", "the recursive enumerator was found", "no recursive enumerator with a string accumulator found on DomainSuffixTrie")
+	r.Floor(rule, 2)
 }
